@@ -135,7 +135,7 @@ const c02NArgLists = 7
 func c02PairVals() []Val {
 	var r []Val
 	want := map[string]bool{"int": true, "stringLF": true, "float64": true, "[]byte": true, "[]interface{}": true, "struct": true, "Stringer": true, "error": true, "safeT": true, "panic String(str)": true, "nil": true, "map[string]int": true, "Formatter": true, "bool": true,
-		"Safe(str)": true, "Unsafe(safeT)": true, "RedactableString": true, "SafeFormatter": true, "[]iface{Safe,unsafe,Redactable}": true, "*int": true}
+		"stringEmpty": true, "Safe(str)": true, "Unsafe(safeT)": true, "RedactableString": true, "SafeFormatter": true, "[]iface{Safe,unsafe,Redactable}": true, "*int": true}
 	for _, v := range universe() {
 		if want[v.Name] {
 			r = append(r, v)
@@ -148,9 +148,13 @@ func c02Pair(d1, d2 Directive, v1, v2 int, seen func(string)) string {
 	u := c02PairVals()
 	f1, s1 := d1.Format()
 	f2, s2 := d2.Format()
-	return c02Run("a"+f1+"|"+f2+"z", func(v int) []interface{} {
+	mk := func(v int) []interface{} {
 		return append(append(append(append([]interface{}{}, s1...), u[v1].Mk(v)), s2...), u[v2].Mk(v))
-	}, seen)
+	}
+	if d := c02Run("a"+f1+"|"+f2+"z", mk, seen); d != "" {
+		return d
+	}
+	return c02Run(f1+f2+"\n", mk, seen)
 }
 
 func c02Sprint(vs []int, seen func(string)) string {
